@@ -706,6 +706,8 @@ where
 
     #[inline]
     pub(crate) fn spawn(mut self, spawner: Box<dyn Fn(BoxFuture<'static, ()>) + Send + Sync>) {
+        #[cfg(transparencies_stretto_verif)]
+        crate::verif::note_processor_config(self.ignore_internal_cost, self.cleanup_duration);
         (spawner)(Box::pin(async move {
             let mut cleanup_timer = Timer::interval(self.cleanup_duration);
 
